@@ -2,6 +2,7 @@
 //! Scenario runs under a watchdog (a scenario that does not finish is a hang) with the process-wide
 //! panic hook watching the compaction thread.
 
+use std::sync::atomic::{AtomicBool, Ordering};
 use std::sync::Arc;
 use std::time::Duration;
 
@@ -335,6 +336,107 @@ fn close_with_task_in_flight(seed: u64) -> Vec<Fail> {
     fails
 }
 
+
+/// a group-commit leader that FAILS while other writers are queued behind it (its WAL append or
+/// the memtable rotation it needs fails under an injected fault): whoever leaves the writer queue
+/// must wake the next writer, so every queued call and every later call returns
+fn failed_leader_with_queued_writers(seed: u64) -> Vec<Fail> {
+    let mut rng = Prng::new(seed);
+    let mut fails = vec![];
+    let fs = SimFs::new();
+    let mut cfg = Cfg::gen(&mut rng);
+    cfg.memtable = *rng.pick(&[512usize, 1024, 2048]);
+    let db = match open(&cfg, &fs) {
+        Ok(d) => Arc::new(d),
+        Err(f) => return vec![f],
+    };
+    crate::sched::reset();
+    // writer A is parked with the mutex released, just before its WAL append; its value is larger
+    // than the memtable, so the next leader has to rotate the memtable (new WAL file)
+    let gate = crate::sched::arm("wA", "write:before-wal", 1);
+    let followers = rng.range(1, 4) as usize;
+    let done: Arc<parking_lot::Mutex<Vec<(String, bool)>>> = Arc::new(parking_lot::Mutex::new(vec![]));
+    let mut handles = vec![];
+    {
+        let (db, done, big) = (Arc::clone(&db), Arc::clone(&done), cfg.memtable * 2);
+        handles.push(std::thread::spawn(move || {
+            crate::sched::set_role("wA");
+            let r = db.put(WriteOptions::default(), b"leader".to_vec(), vec![b'a'; big]);
+            done.lock().push(("A".to_string(), r.is_ok()));
+        }));
+    }
+    if !gate.wait_parked(Duration::from_secs(5)) {
+        gate.release();
+        for h in handles {
+            let _ = h.join();
+        }
+        crate::sched::reset();
+        return fails;
+    }
+    for i in 0..followers {
+        let (db, done) = (Arc::clone(&db), Arc::clone(&done));
+        handles.push(std::thread::spawn(move || {
+            crate::sched::set_role("wF");
+            let r = if i == 1 {
+                // a manual compaction queues an empty writer (forced flush)
+                db.compact_range(Some(&b"a"[..])..Some(&b"b"[..]));
+                Ok(())
+            } else {
+                db.put(WriteOptions::default(), format!("follower{i}").into_bytes(), vec![b'f'; 30])
+            };
+            done.lock().push((format!("F{i}"), r.is_ok()));
+        }));
+    }
+    let t0 = std::time::Instant::now();
+    while db.verif_state().writer_queue_len < 1 + followers && t0.elapsed() < Duration::from_secs(5) {
+        std::thread::sleep(Duration::from_millis(1));
+    }
+    let queued = db.verif_state().writer_queue_len;
+    // mode 0: every call from now on fails (the leader's own append too); mode 1..: the leader's
+    // append goes through, the calls after it (rotation: new WAL file) fail
+    let mode = seed % 4;
+    fs.reset_calls();
+    fs.set_fault(Some(crate::simfs::FaultPlan { at: mode, sticky: true, partial: false }));
+    gate.release();
+    let t0 = std::time::Instant::now();
+    while handles.iter().any(|h| !h.is_finished()) && t0.elapsed() < Duration::from_secs(15) {
+        std::thread::sleep(Duration::from_millis(5));
+    }
+    let stuck = handles.iter().filter(|h| !h.is_finished()).count();
+    fs.set_fault(None);
+    if stuck > 0 {
+        fails.push(("c09:queued-writer-never-returns".into(), format!("{stuck} of {} calls queued behind a group-commit leader never returned after the leader (or the next leader) failed under an injected I/O fault (fault from call {mode} on, {queued} writers were queued, {} filesystem faults fired); returned so far: {:?}: a writer that leaves the queue must wake the next one", 1 + followers, fs.faults_fired(), done.lock().clone())));
+        crate::sched::reset();
+        std::mem::forget(db);
+        return fails;
+    }
+    for h in handles {
+        if h.join().is_err() {
+            fails.push(("c09:panic-in-write".into(), "a writer thread panicked".into()));
+        }
+    }
+    // a later call must return as well (Ok or the recorded error)
+    let (db2, flag) = (Arc::clone(&db), Arc::new(AtomicBool::new(false)));
+    let f2 = Arc::clone(&flag);
+    let later = std::thread::spawn(move || {
+        let _ = db2.put(WriteOptions::default(), b"later".to_vec(), b"x".to_vec());
+        f2.store(true, Ordering::SeqCst);
+    });
+    let t0 = std::time::Instant::now();
+    while !flag.load(Ordering::SeqCst) && t0.elapsed() < Duration::from_secs(10) {
+        std::thread::sleep(Duration::from_millis(2));
+    }
+    if !flag.load(Ordering::SeqCst) {
+        fails.push(("c09:write-after-failed-leader-never-returns".into(), format!("a put issued after a group-commit leader had failed under an injected fault (fault from call {mode} on, {queued} writers were queued) did not return within 10 s")));
+        crate::sched::reset();
+        std::mem::forget(db);
+        return fails;
+    }
+    let _ = later.join();
+    crate::sched::reset();
+    fails
+}
+
 /// degenerate option values
 fn degenerate(seed: u64) -> Vec<Fail> {
     let fs = SimFs::new();
@@ -425,7 +527,7 @@ fn snapshots_threads(seed: u64) -> Vec<Fail> {
 }
 
 pub fn rule() -> &'static str {
-    "watchdog scenarios on the real database: every descriptor kind; sustained multi-threaded writes with 256-512 byte memtables (memtable-full waits, level-0 slowdown and stop) with a concurrent manual compaction, closed immediately afterwards; closing while an iterator is alive; closing while a background task is parked in the middle of a flush (scheduling hook) after no error, after a failed foreground WAL append, or with every further filesystem call of the task failing; degenerate option values (memtable 0/1/64, file size 0/1, block size 0/1); snapshots and iterators taken and released from several threads. A scenario that does not finish within its deadline is a hang; any panic of the compaction thread is recorded by the process-wide panic hook. Non-trivial = the scenario ran; distinct by (scenario, seed)."
+    "watchdog scenarios on the real database: every descriptor kind; sustained multi-threaded writes with 256-512 byte memtables (memtable-full waits, level-0 slowdown and stop) with a concurrent manual compaction, closed immediately afterwards; closing while an iterator is alive; a group-commit leader parked before its WAL append with one to three calls (puts, a manual compaction) queued behind it, then an injected sticky fault (from the leader's own append on, or from the 1st-3rd call after it on: the rotation the next leader needs) - every queued call and a later put must return; closing while a background task is parked in the middle of a flush (scheduling hook) after no error, after a failed foreground WAL append, or with every further filesystem call of the task failing; degenerate option values (memtable 0/1/64, file size 0/1, block size 0/1); snapshots and iterators taken and released from several threads. A scenario that does not finish within its deadline is a hang; any panic of the compaction thread is recorded by the process-wide panic hook. Non-trivial = the scenario ran; distinct by (scenario, seed)."
 }
 
 pub fn run(tier: &str, seed: u64, replay: Option<&str>, shard: Option<ShardArgs>, drv_path: &str) -> Report {
@@ -439,6 +541,7 @@ pub fn run(tier: &str, seed: u64, replay: Option<&str>, shard: Option<ShardArgs>
         ("sustained", sustained, if thorough { 120 } else { 16 }, 120),
         ("close-with-iterator", close_with_iterator, if thorough { 10 } else { 3 }, 30),
         ("close-with-task-in-flight", close_with_task_in_flight, if thorough { 90 } else { 15 }, 60),
+        ("failed-leader-with-queued-writers", failed_leader_with_queued_writers, if thorough { 120 } else { 24 }, 60),
         ("degenerate", degenerate, 7, 40),
         ("snapshots-threads", snapshots_threads, if thorough { 40 } else { 6 }, 90),
     ];
